@@ -949,10 +949,14 @@ impl<T: Transport + 'static> SyncEngine<T> {
                                         }
                                     }
 
-                                    // Verify transfer if verification is enabled (skip directories)
+                                    // Verify transfer if verification is enabled (skip directories, and
+                                    // symbolic links for which no file was copied -- kept as links, or
+                                    // left out: hashing reads through them, so a dangling link counted
+                                    // as a verification failure)
                                     if verification_mode != ChecksumType::None
                                         && !dry_run
                                         && !source.is_dir
+                                        && !(source.is_symlink && transfer_result.is_none())
                                     {
                                         let source_path = &source.path;
                                         let dest_path = &task.dest_path;
@@ -1127,10 +1131,14 @@ impl<T: Transport + 'static> SyncEngine<T> {
                                         }
                                     }
 
-                                    // Verify transfer if verification is enabled (skip directories)
+                                    // Verify transfer if verification is enabled (skip directories, and
+                                    // symbolic links for which no file was copied -- kept as links, or
+                                    // left out: hashing reads through them, so a dangling link counted
+                                    // as a verification failure)
                                     if verification_mode != ChecksumType::None
                                         && !dry_run
                                         && !source.is_dir
+                                        && !(source.is_symlink && transfer_result.is_none())
                                     {
                                         let source_path = &source.path;
                                         let dest_path = &task.dest_path;
